@@ -385,9 +385,11 @@ def _validate_url(url: str, validator: Callable[[str], None] | None) -> None:
         message = str(exc).replace(url, redact_url(url))
         parsed = urlparse(url)
         secrets = [parsed.username, parsed.password, *(value for _, value in parse_qsl(parsed.query))]
-        for secret in secrets:
-            if secret:
-                message = message.replace(secret, "<redacted>")
+        # Longest first: when one secret is a prefix/substring of another (user
+        # "bob", password "bob123"), replacing the short one first would break
+        # up the long one and leave its remainder ("123") in the message.
+        for secret in sorted((s for s in secrets if s), key=len, reverse=True):
+            message = message.replace(secret, "<redacted>")
         raise ValueError(f"ExternalLocation URL rejected: {message}") from None
 
 
